@@ -97,7 +97,7 @@ CHECKS["C13"] = {
         {"pkg": "pure", "test": "TestC13Delta", "quick": 600, "thorough": 40000, "shards_quick": 6, "shards_thorough": 12},
         {"pkg": "pure", "test": "TestC13Digest", "quick": 600, "thorough": 40000, "shards_quick": 3, "shards_thorough": 8},
         {"pkg": "pure", "test": "TestC13GossipSender", "quick": 100, "thorough": 3000, "shards_quick": 3, "shards_thorough": 8},
-        {"pkg": "pure", "test": "TestC13Hostile", "quick": 30000, "thorough": 3000000, "shards_quick": 6, "shards_thorough": 16},
+        {"pkg": "pure", "test": "TestC13Hostile", "quick": 40000, "thorough": 1500000, "shards_quick": 6, "shards_thorough": 16},
         {"pkg": "fuzz", "fuzz": "FuzzHandlePacket", "quick": 1, "thorough": 1, "fuzztime_thorough": 150, "workers": 16},
         {"pkg": "fuzz", "fuzz": "FuzzHandleStream", "quick": 1, "thorough": 1, "fuzztime_thorough": 150, "workers": 16},
         {"pkg": "fuzz", "fuzz": "FuzzDeltaRoundTrip", "quick": 1, "thorough": 1, "fuzztime_thorough": 90, "workers": 16},
@@ -111,7 +111,7 @@ CHECKS["C13"] = {
 
 SYS_NOTE = "real goroutine scheduling and real sockets: interleavings are sampled; liveness ('settles', 'reconnects') is decided against deadlines of 20 s (x3 on a miss) where measured latencies are 5-500 ms"
 CHECKS["C01"] = {
-    "subs": [{"pkg": "sys", "test": "TestC01", "quick": 96, "thorough": 2400, "shards_quick": 8, "shards_thorough": 12, "shrinktime": "10s", "timeout_quick": 900, "timeout_thorough": 7200},
+    "subs": [{"pkg": "sys", "test": "TestC01", "quick": 120, "thorough": 6000, "shards_quick": 8, "shards_thorough": 12, "shrinktime": "10s", "timeout_quick": 900, "timeout_thorough": 7200},
              {"pkg": "sim", "test": "TestC01Sim", "quick": 3000, "thorough": 100000, "shards_quick": 4, "shards_thorough": 8}],
     "engine": "SYS+SIM",
     "level_text": "Generated scenarios against in-process clusters of real servers with self-stamping upstreams (Go SDK and agent, HTTP and TCP): every response must come from an upstream of exactly the addressed endpoint or be a gateway error, and after settling every node must serve exactly the endpoints that have an upstream somewhere. Exploration only.",
@@ -121,7 +121,7 @@ CHECKS["C01"] = {
 
 CHECKS["C06"] = {
     "subs": [{"pkg": "sys", "test": "TestRegressD7", "quick": 1, "thorough": 1, "shards": 1},
-             {"pkg": "sys", "test": "TestC06", "quick": 96, "thorough": 3000, "shards_quick": 8, "shards_thorough": 12, "shrinktime": "10s", "timeout_quick": 900, "timeout_thorough": 7200}],
+             {"pkg": "sys", "test": "TestC06", "quick": 160, "thorough": 20000, "shards_quick": 8, "shards_thorough": 12, "shrinktime": "10s", "timeout_quick": 900, "timeout_thorough": 7200}],
     "engine": "SYS",
     "level_text": "Generated combinations of hand-written (possibly false, cyclic, stale) routing views on real un-joined nodes with counting relays between nodes; per request the number of inter-node hops and the outcome are checked against the views and the real upstream placement. Exploration only.",
     "technique": "configuration-level PBT (rapid) on real servers; oracle = hop counters in harness relays + upstream stamps",
@@ -130,7 +130,7 @@ CHECKS["C06"] = {
 
 CHECKS["C18"] = {
     "subs": [{"pkg": "sys", "test": "TestRegressD4", "quick": 1, "thorough": 1, "shards": 1},
-             {"pkg": "sys", "test": "TestC18", "quick": 48, "thorough": 1200, "shards_quick": 8, "shards_thorough": 12, "shrinktime": "10s", "timeout_quick": 1200, "timeout_thorough": 7200}],
+             {"pkg": "sys", "test": "TestC18", "quick": 64, "thorough": 4000, "shards_quick": 8, "shards_thorough": 12, "shrinktime": "10s", "timeout_quick": 1200, "timeout_thorough": 7200}],
     "engine": "SYS",
     "level_text": "Generated node-loss scenarios (which node, graceful or kill, idle / attached / in-flight, grace period) on real clusters with upstream listeners behind a load balancer; the graceful path is checked for termination, withdrawal and synchronous leave notification, both paths for listener reconnection and recovery of service from every survivor. Exploration only; liveness against deadlines.",
     "technique": "fault-scenario PBT (rapid) on real in-process servers; oracle = stamps, routing tables and shutdown timing",
@@ -138,7 +138,7 @@ CHECKS["C18"] = {
 }
 
 CHECKS["C16"] = {
-    "subs": [{"pkg": "sys", "test": "TestC16", "quick": 40, "thorough": 800, "shards_quick": 8, "shards_thorough": 12, "shrinktime": "10s", "timeout_quick": 1200, "timeout_thorough": 7200}],
+    "subs": [{"pkg": "sys", "test": "TestC16", "quick": 48, "thorough": 2500, "shards_quick": 8, "shards_thorough": 12, "shrinktime": "10s", "timeout_quick": 1200, "timeout_thorough": 7200}],
     "engine": "SYS",
     "level_text": "Generated connection-ending scenarios (every ending mode, order, siblings, in-flight requests, token expiry with the option on/off) on real servers; at each quiescent point the status API registry, the cluster state and the open-session count must equal the model of open connections, and expiry must fall in [exp, exp+deadline]. Exploration only.",
     "technique": "fault-scenario PBT (rapid) on real servers; oracle = model of open connections vs registry/cluster/sessions, wall-clock window for expiry",
@@ -149,8 +149,8 @@ CHECKS["C08"] = {
     "subs": [
         {"pkg": "sys", "test": "TestRegressD3", "quick": 1, "thorough": 1, "shards": 1},
         {"pkg": "sys", "test": "TestRegressD6", "quick": 1, "thorough": 1, "shards": 1},
-        {"pkg": "sys", "test": "TestC08Transparency", "quick": 80, "thorough": 4000, "shards_quick": 8, "shards_thorough": 12, "shrinktime": "10s", "timeout_quick": 900, "timeout_thorough": 7200},
-        {"pkg": "sys", "test": "TestC08Failures", "quick": 64, "thorough": 2000, "shards_quick": 8, "shards_thorough": 12, "shrinktime": "10s", "timeout_quick": 900, "timeout_thorough": 7200},
+        {"pkg": "sys", "test": "TestC08Transparency", "quick": 120, "thorough": 15000, "shards_quick": 8, "shards_thorough": 12, "shrinktime": "10s", "timeout_quick": 900, "timeout_thorough": 7200},
+        {"pkg": "sys", "test": "TestC08Failures", "quick": 80, "thorough": 8000, "shards_quick": 8, "shards_thorough": 12, "shrinktime": "10s", "timeout_quick": 900, "timeout_thorough": 7200},
     ],
     "engine": "SYS",
     "level_text": "Grammar-generated requests and response shapes through real clusters (local and forwarded, SDK and agent upstreams) compared field by field with what the upstream recorded and what the client received; a generated failure matrix checks the 400/502/504 mapping, the timeout window and that upgrades survive the timeout. Exploration only.",
@@ -159,7 +159,7 @@ CHECKS["C08"] = {
 }
 
 CHECKS["C09"] = {
-    "subs": [{"pkg": "sys", "test": "TestC09", "quick": 160, "thorough": 6000, "shards_quick": 8, "shards_thorough": 12, "shrinktime": "10s", "timeout_quick": 900, "timeout_thorough": 7200}],
+    "subs": [{"pkg": "sys", "test": "TestC09", "quick": 240, "thorough": 30000, "shards_quick": 8, "shards_thorough": 12, "shrinktime": "10s", "timeout_quick": 900, "timeout_thorough": 7200}],
     "engine": "SYS",
     "level_text": "Generated (route, credential) pairs on real protected ports: the route table of each port is enumerated from the running gin engine, key configurations and token defects are drawn, validity is known by construction; every invalid pair must be answered 401 without reaching the upstream, the registry or a peer. Exploration only.",
     "technique": "PBT (rapid) over enumerated routes x constructed tokens; oracle = validity by construction + observation points behind the routes",
@@ -168,8 +168,8 @@ CHECKS["C09"] = {
 
 CHECKS["C10"] = {
     "subs": [
-        {"pkg": "sys", "test": "TestC10Endpoints", "quick": 64, "thorough": 3000, "shards_quick": 8, "shards_thorough": 12, "shrinktime": "10s", "timeout_quick": 900, "timeout_thorough": 7200},
-        {"pkg": "sys", "test": "TestC10Tenants", "quick": 96, "thorough": 4000, "shards_quick": 8, "shards_thorough": 12, "shrinktime": "10s", "timeout_quick": 900, "timeout_thorough": 7200},
+        {"pkg": "sys", "test": "TestC10Endpoints", "quick": 96, "thorough": 15000, "shards_quick": 8, "shards_thorough": 12, "shrinktime": "10s", "timeout_quick": 900, "timeout_thorough": 7200},
+        {"pkg": "sys", "test": "TestC10Tenants", "quick": 128, "thorough": 20000, "shards_quick": 8, "shards_thorough": 12, "shrinktime": "10s", "timeout_quick": 900, "timeout_thorough": 7200},
     ],
     "engine": "SYS",
     "level_text": "Generated endpoint-claim sets, addressing modes (Host label, header, conflicting, TCP path, listen path, local and forwarded) and tenant tables against real protected ports with stamping upstreams of near-miss endpoint names; acceptance must equal membership of the routed endpoint in the claim list in both directions, and the serving upstream must be of the checked endpoint; tenant pairings are checked exhaustively per drawn table. Exploration only.",
@@ -179,8 +179,8 @@ CHECKS["C10"] = {
 
 CHECKS["C07"] = {
     "subs": [
-        {"pkg": "sys", "test": "TestC07Adapter", "quick": 400, "thorough": 30000, "shards_quick": 8, "shards_thorough": 16, "shrinktime": "10s", "timeout_quick": 900, "timeout_thorough": 7200},
-        {"pkg": "sys", "test": "TestC07Tunnel", "quick": 64, "thorough": 2500, "shards_quick": 8, "shards_thorough": 12, "shrinktime": "10s", "timeout_quick": 900, "timeout_thorough": 7200},
+        {"pkg": "sys", "test": "TestC07Adapter", "quick": 600, "thorough": 60000, "shards_quick": 8, "shards_thorough": 16, "shrinktime": "10s", "timeout_quick": 900, "timeout_thorough": 7200},
+        {"pkg": "sys", "test": "TestC07Tunnel", "quick": 96, "thorough": 8000, "shards_quick": 8, "shards_thorough": 12, "shrinktime": "10s", "timeout_quick": 900, "timeout_thorough": 7200},
     ],
     "engine": "SYS",
     "level_text": "Generated chunking schedules (write sizes at WebSocket length-encoding and yamux window edges, read-buffer cycles, fragmented and empty messages, both directions concurrently) over the WebSocket adapter and over complete tunnels (dialer / forwarder, one or two nodes, SDK listener / agent TCP proxy); the received stream must equal the written position-dependent pattern and a close at either end must be observed at the other and release the server's streams. Exploration only.",
@@ -191,7 +191,7 @@ CHECKS["C07"] = {
 CHECKS["C19"] = {
     "subs": [
         {"pkg": "sim", "test": "TestC19Rebalance", "quick": 4000, "thorough": 200000, "shards_quick": 8, "shards_thorough": 16},
-        {"pkg": "sys", "test": "TestC19Disabled", "quick": 4, "thorough": 24, "shards_quick": 4, "shards_thorough": 8, "timeout_quick": 600},
+        {"pkg": "sys", "test": "TestC19Disabled", "quick": 4, "thorough": 48, "shards_quick": 4, "shards_thorough": 8, "timeout_quick": 600},
     ],
     "engine": "PURE+SYS",
     "level_text": "Property-based test of one Rebalance() step on the real upstream server with real yamux sessions and generated cluster views (thresholds placed on the balance, whole-number averages of zero, non-active nodes with connections): the number of closed sessions must respect the statement's preconditions and cap; on real clusters rebalancing with threshold 0 must never shed. Exploration only.",
@@ -201,8 +201,8 @@ CHECKS["C19"] = {
 
 CHECKS["C20"] = {
     "subs": [
-        {"pkg": "sim", "test": "TestC20Program", "race": True, "quick": 400, "thorough": 20000, "shards_quick": 8, "shards_thorough": 16, "timeout_quick": 900, "timeout_thorough": 7200},
-        {"pkg": "sys", "test": "TestC20Churn", "race": True, "quick": 2, "thorough": 24, "shards_quick": 2, "shards_thorough": 8, "timeout_quick": 900, "timeout_thorough": 7200},
+        {"pkg": "sim", "test": "TestC20Program", "race": True, "quick": 600, "thorough": 60000, "shards_quick": 8, "shards_thorough": 16, "timeout_quick": 900, "timeout_thorough": 7200},
+        {"pkg": "sys", "test": "TestC20Churn", "race": True, "quick": 2, "thorough": 48, "shards_quick": 2, "shards_thorough": 8, "timeout_quick": 900, "timeout_thorough": 7200},
     ],
     "engine": "SIM+SYS (-race)",
     "level_text": "Generated concurrent programs over one real node stack and generated churn on real clusters, both built with the race detector: the detector reports unsynchronised access from happens-before (without needing the bad interleaving), a watchdog catches deadlocks, and at quiescence registry, routing table and gossip state must agree. Exploration only; interleavings are sampled.",
